@@ -9,6 +9,14 @@ open Cog Cog.IR Cog.Sem
 
 def semFuel : Nat := 64
 
+/-- iterative deepening: the first fuel (4, 6, 8, …) at which the model does not answer `fuel`.
+    (compiled Lean is strict, so `wrapPtr`'s discarded argument is still evaluated and a large
+    fuel on a recursive schema is exponential; results do not depend on the fuel once it suffices) -/
+partial def goRoundTripAuto (ss : Schemas) (pkg name : String) (j : Json) (f : Nat := 4) : DRes Json :=
+  match goRoundTrip f ss pkg name j with
+  | .fuel => if f ≥ semFuel then .fuel else goRoundTripAuto ss pkg name j (f + 2)
+  | r => r
+
 def showDRes : DRes Json → String
   | .ok j => "ok " ++ j.render
   | .err => "err"
@@ -23,7 +31,7 @@ def godecLine (rest : String) : IO String := do
     | some ss =>
       match (Sexp.parse (" ".intercalate js)).bind Json.ofSexp with
       | none => return "bad-json"
-      | some j => return showDRes (goRoundTrip semFuel ss pkg obj j)
+      | some j => return showDRes (goRoundTripAuto ss pkg obj j)
   | _ => return "bad-request"
 
 end Cog.Drv
